@@ -25,7 +25,7 @@ FLAG_CONSTS = ["True", "False", "0", "1", "()", "'x'"]
 BASE_PROFILE: Dict[str, Any] = dict(
     n_stmts=(1, 8), p_more=0.72,
     w_call=10, w_op=2, w_uop=0.6, w_logic=1, w_nested=2,
-    max_depth=2, p_flag=0.28, p_flag_const=0.25, p_kwarg=0.25, p_dep=0.78, p_index=0.5, p_unpack=0.4,
+    max_depth=2, p_flag=0.28, p_flag_const=0.25, p_flag_sibling=0.4, p_kwarg=0.25, p_dep=0.78, p_index=0.5, p_unpack=0.4,
     p_reuse=0.3, p_debug=0.0, p_setup=0.0, p_tag=0.0, p_fn_unpack=0.1,
     resources=[("thread", 5), ("async_thread", 2), ("main_thread", 2)], p_seq=0.18, prio=(-2, 4),
     p_prio=0.6, max_args=3, n_params=(0, 3), p_default=0.45,
@@ -266,12 +266,28 @@ class ProgramGen:
         cands = [v for v in st["vars"] if (debug_fn or not v.debug)]
         if not cands:
             return None
+        prev = st.setdefault("flag_srcs", [])
+        if prev and d.bool(p["p_flag_sibling"]):
+            # a DIFFERENT part of a result that already switches another node: flags are told apart by producer AND key
+            name, keys = d.pick(prev)
+            v0 = next((w for w in cands if w.name == name), None)
+            sib: List[list] = []
+            if v0 is not None and keys:
+                sib = [["v", name, [k]] for k, _ in ELEMS[v0.type] if [k] != keys]
+            elif v0 is not None and v0.key:
+                sib = [["v", w.name, []] for w in cands if w.stmt == v0.stmt and w.name != name and w.key]
+            if sib:
+                e = d.pick(sib)
+                prev.append((e[1], e[2]))
+                return e, False
         v = self.pick_var(cands)
         if not v.nullable and v.type in ELEMS and d.bool(0.7):
             # prefer the boolean element: whole-value truthiness differs from the element's
             els = [e for e in ELEMS[v.type] if e[1] == "bool"] or ELEMS[v.type]
             k, _ = d.pick(els)
+            prev.append((v.name, [k]))
             return ["v", v.name, [k]], False
+        prev.append((v.name, []))
         return ["v", v.name, []], False
 
     def gen_call(self, st: dict, plain: bool = False) -> None:
